@@ -125,12 +125,16 @@ fn fam_limits(ctx: &CaseCtx, cov: &mut Cov) -> CaseOut {
         out.harness_error(format!("unlimited run of a {} stream: {} with {} bytes; C01's business", if truncated { "truncated" } else { "valid" }, base.verdict.short(), base.out.len()));
         return out;
     }
-    let need = base.win_max;
-    let expect_need = if truncated { need } else { len.min(d) as usize };
-    if need != expect_need {
+    let measured = base.win_max;
+    let expect_need = if truncated { measured } else { len.min(d) as usize };
+    if measured != expect_need {
         // informational: the statement's formula vs. what the hook measured
-        out.warnings.push(format!("window hook measured {} but min(dict, produced) = {}", need, expect_need));
+        out.warnings.push(format!("window hook measured {} but min(dict, produced) = {}", measured, expect_need));
     }
+    // a complete stream needs min(dictionary, bytes produced) by definition - every byte passes
+    // through the window; the hook is only trusted where the formula has nothing to say (a
+    // truncated stream), so a growth path that bypasses the hook cannot lower the bar
+    let need = expect_need;
     cov.inc("api", api as u32);
     cov.max("need", need as u64);
     let limits: Vec<(usize, usize)> = vec![
